@@ -16,7 +16,7 @@ from fractions import Fraction
 
 from ..core.tree import AnalysisError
 from ..core.constfold import Folder
-from ..core.astutil import walk_no_nested, call_name, short, src, is_self_attr
+from ..core.astutil import walk_no_nested, call_name, short, src, is_self_attr, resolve_local
 from ..engines.symeval import SymEvaluator, Poly, Param, SObj, Raised, _Path
 from ..engines.affine import check_affine, unwrap_floor, outcome_table
 from ..engines import pathrules as PR
@@ -102,14 +102,14 @@ def timecode(ctx, report, folder):
     if len(calls) != 1 or len(calls[0].args) != 2:
         raise AnalysisError("get_time: call of _translate_time not recognised")
     a0, a1 = calls[0].args
-    txt = src(a0)
+    txt = src(resolve_local(gt, a0))
     m = re.fullmatch(r"self\._time\[:-2\] \+ str\(int\(self\._time\[-2:\]\) \+ self\._frames\)", txt)
     if not m:
         raise AnalysisError(f"get_time: stamp re-assembly not recognised: {txt}")
     report.ok("R-AFFINE", (gt, calls[0]), "frame field handed on = line's frame field + frames consumed",
               {"expression": txt}, "1")
-    report.check(src(a1) == "self.offset", "R-FIELD-ROUTING", (gt, calls[0]), "the configured offset is passed on",
-                 src(a1), "1")
+    report.check(src(resolve_local(gt, a1)) == "self.offset", "R-FIELD-ROUTING", (gt, calls[0]),
+                 "the configured offset is passed on", src(a1), "1")
     # start_at resets the counter; increment adds exactly one
     sa = ctx.index.get_function(SCC, "_SccTimeTranslator.start_at")
     inc = ctx.index.get_function(SCC, "_SccTimeTranslator.increment_frames")
@@ -184,7 +184,8 @@ def thresholds(ctx, report, folder):
     if len(cmp_) != 1:
         raise AnalysisError("_update_last_batch: joining test not found")
     c = cmp_[0]
-    ok = isinstance(c.ops[0], ast.Lt) and re.fullmatch(r"\w+\.start - \w+\[-1\]\.end", src(c.left)) is not None
+    ok = isinstance(c.ops[0], ast.Lt) and re.fullmatch(r"[\w\[\]]+\.start - [\w\[\]]+\[-1\]\.end",
+                                                       src(resolve_local(fn, c.left))) is not None
     rhs = c.comparators[0]
     try:
         val = folder.eval_in(fn.module, rhs)
